@@ -285,7 +285,12 @@ func groupWorkers(c *Ctx) map[string]*ssa.Function {
 	return out
 }
 
-func isUserF(call *ssa.Call) bool {
+// isUserF: a call of the user's function - by role: a dynamic call of a func(context.Context) value (the only such values in
+// Group are the functions handed to Do / Periodic / Trigger / PeriodicOrTrigger), or of a thin adaptor built from one
+// (run := g.withCtx(f); run()) whose body is nothing but that call.
+func isUserF(call *ssa.Call) bool { return isUserFDepth(call, 0) }
+
+func isUserFDepth(call *ssa.Call, depth int) bool {
 	if call.Call.IsInvoke() {
 		return false
 	}
@@ -295,7 +300,34 @@ func isUserF(call *ssa.Call) bool {
 	if _, ok := call.Call.Value.(*ssa.Builtin); ok {
 		return false
 	}
-	return path(call.Call.Value) == "f"
+	if path(call.Call.Value) == "f" {
+		return true
+	}
+	sig := call.Call.Signature()
+	if sig != nil && sig.Recv() == nil && sig.Params().Len() == 1 && sig.Results().Len() == 0 && isContextType(sig.Params().At(0).Type()) {
+		if _, isMC := call.Call.Value.(*ssa.MakeClosure); !isMC {
+			return true
+		}
+	}
+	if depth > 1 {
+		return false
+	}
+	if f := resolveFuncValue(call.Call.Value, 0); f != nil && f.Blocks != nil && f.Parent() != nil {
+		nCalls, user := 0, false
+		instrs(f, func(_ *ssa.BasicBlock, _ int, in ssa.Instruction) {
+			switch x := in.(type) {
+			case *ssa.Call:
+				nCalls++
+				if isUserFDepth(x, depth+1) {
+					user = true
+				}
+			case *ssa.Go, *ssa.Defer, *ssa.Select, *ssa.Send:
+				nCalls += 2
+			}
+		})
+		return nCalls == 1 && user
+	}
+	return false
 }
 
 // deepFrames: the functions reachable from root through static in-package calls, each once, with a call chain leading to it.
@@ -331,7 +363,7 @@ func ruleGroupNoRunAfterStop(c *Ctx, r *R) {
 		// has a g.ctx.Done() arm) through another arm, bit2 = came through the g.ctx.Done() arm. Reset by each run of f.
 		pkg := rootFn(w).Pkg
 		pf := &PF{N: 8, DeepVisit: true, InScope: func(f *ssa.Function) bool {
-			return rootFn(f).Pkg == pkg && f.Blocks != nil && f != w && f.Name() != "spawn"
+			return rootFn(f).Pkg == pkg && f.Blocks != nil && f != w && f.Name() != "spawn" && !isUserAdaptor(f)
 		}}
 		isGroupCtx := func(v ssa.Value) bool {
 			for _, lf := range valueLeaves(v, nil, 0) {
@@ -623,7 +655,7 @@ var _ = late(func() {
 				rebindWorker(w)
 				wpkg := rootFn(w).Pkg
 				pf := &PF{N: 2, DeepVisit: true, InScope: func(f *ssa.Function) bool {
-					return rootFn(f).Pkg == wpkg && f.Blocks != nil && f != w && f.Name() != "spawn"
+					return rootFn(f).Pkg == wpkg && f.Blocks != nil && f != w && f.Name() != "spawn" && !isUserAdaptor(f)
 				}} // 0 = not re-armed since the select, 1 = re-armed
 				pf.Instr = func(f *ssa.Function, in ssa.Instruction, q int) (StateSet, bool) {
 					switch x := in.(type) {
@@ -848,4 +880,25 @@ func isCancelFuncCall(call *ssa.Call) bool {
 	default:
 		return isCF(v)
 	}
+}
+
+// isUserAdaptor: a function literal that is nothing but one call of the user's function (func() { f(g.ctx) }): a call of it IS
+// the run of f, so the typestates do not look inside.
+func isUserAdaptor(f *ssa.Function) bool {
+	if f == nil || f.Parent() == nil || f.Blocks == nil {
+		return false
+	}
+	nCalls, user := 0, false
+	instrs(f, func(_ *ssa.BasicBlock, _ int, in ssa.Instruction) {
+		switch x := in.(type) {
+		case *ssa.Call:
+			nCalls++
+			if isUserFDepth(x, 1) {
+				user = true
+			}
+		case *ssa.Go, *ssa.Defer, *ssa.Select, *ssa.Send:
+			nCalls += 2
+		}
+	})
+	return nCalls == 1 && user
 }
